@@ -228,14 +228,16 @@ def ETrie.isNil : ETrie → Bool
   | .nil => true
   | _ => false
 
-/-- the encoding of a branch from the encodings of its children (`encodeNode`, branch case) -/
-def encBranch (ver : Ver) (H : Bytes → Bytes) (pk : Nibs) (v : Option Bytes) (kids : List ETrie) : Bytes :=
+/-- the encoding of a branch from the encodings of its children (`encodeNode`, branch case);
+    `bm` = the children bitmap -/
+def encBranch (ver : Ver) (H : Bytes → Bytes) (pk : Nibs) (v : Option Bytes) (bm : Nat)
+    (kids : List ETrie) : Bytes :=
   (match v with
     | none => header 0x80 0x3f pk.length
     | some x => if mustBeHashed ver x then header 0x10 0x0f pk.length
                 else header 0xc0 0x3f pk.length)
     ++ packNibs pk
-    ++ leBytes 2 ((kids.zipIdx.map fun (k, i) => if k.isNil then 0 else 2 ^ i).sum)
+    ++ leBytes 2 bm
     ++ (match v with | none => [] | some x => encodeValue ver H x)
     ++ kids.flatMap (fun k => if k.isNil then [] else Gossamer.scaleBytes (Gossamer.merkleValue H k.enc))
 
@@ -244,7 +246,7 @@ def annot (ver : Ver) (H : Bytes → Bytes) : Trie → ETrie
   | .leaf pk v => .leaf (encodeNode ver H (.leaf pk v)) pk v
   | .branch pk v cs =>
     let kids := (List.finRange 16).map fun i => annot ver H (cs i)
-    .branch (encBranch ver H pk v kids) pk v kids
+    .branch (encBranch ver H pk v (bitmap cs) kids) pk v kids
 
 mutual
 def walkE (ver : Ver) : Bool → ETrie → Nibs → Option (List Bytes)
